@@ -178,7 +178,25 @@ def str_array(src, name):
     return re.findall(r'"([^"]*)"', m.group(1)) if m else None
 
 
-def read_facts(src_raw, proto_raw):
+def read_sid_facts(state_raw):
+    """validate_sozu_id_header (state.rs): the token characters beyond alphanumerics and the reserved names.
+    -> (specials string or None, reserved list or None)"""
+    src = strip_comments(state_raw)
+    body = fn_bodies(src, "validate_sozu_id_header")
+    if len(body) != 1:
+        return None, None
+    body = body[0]
+    m = re.search(r"matches!\(\s*\w+\s*,(.*?)\)\s*;", body, re.S)
+    specials = None
+    if m and re.search(r"is_ascii_alphanumeric\(\)", body):
+        chars = re.findall(r"b'(\\?.)'", m.group(1))
+        specials = "".join(c[-1] for c in chars) if chars else None
+    r_ = re.search(r"\bconst\s+\w+\s*:\s*\[\s*&(?:'static\s+)?str\s*;\s*\w+\s*\]\s*=\s*\[(.*?)\]\s*;", body, re.S)
+    reserved = re.findall(r'"([^"]*)"', r_.group(1)) if r_ and re.search(r"eq_ignore_ascii_case", body) else None
+    return specials, reserved
+
+
+def read_facts(src_raw, proto_raw, state_raw=None):
     """-> (facts read (None where a construct was not recognised), hard failures, unreadable messages)"""
     hard, soft = [], []
     src = strip_comments(src_raw)
@@ -347,6 +365,18 @@ def read_facts(src_raw, proto_raw):
         else:
             flags[fld] = False
     facts["x_real_ip_false"] = True if all(v is False for v in flags.values()) else None
+    # --- the sozu_id_header check the loader shares with ConfigState
+    if state_raw is not None:
+        specials, reserved = read_sid_facts(state_raw)
+        facts["sid_specials"], facts["sid_reserved"] = specials, reserved
+        if specials is None or reserved is None:
+            hard.append("state.rs: validate_sozu_id_header: the token characters (`is_ascii_alphanumeric() || matches!(b, b'!' | ..)`) or the reserved "
+                        "names (`const RESERVED: [&str; N] = [..]` compared with eq_ignore_ascii_case) could not be read; an unknown name is not drawn "
+                        "by the generator, so this is not observable")
+        elif any(x != x.lower() for x in reserved):
+            hard.append("state.rs: validate_sozu_id_header: a reserved name is not spelled in lower case (the model lower-cases the header name and compares)")
+        if not re.search(r"validate_sozu_id_header\s*\(", strip_comments(src_raw)):
+            hard.append("config.rs: the loader no longer calls validate_sozu_id_header (model: to_http / to_tls refuse what ConfigState refuses)")
     return facts, hard, soft
 
 
@@ -367,20 +397,20 @@ def translate():
     try:
         src_raw = open(os.path.join(vlib.REPO, "command/src/config.rs")).read()
         proto_raw = open(os.path.join(vlib.REPO, "command/src/command.proto")).read()
-        facts, hard, soft = read_facts(src_raw, proto_raw)
+        facts, hard, soft = read_facts(src_raw, proto_raw, open(os.path.join(vlib.REPO, "command/src/state.rs")).read())
     except Exception as e:                                   # never an exception out of the translator
         facts, hard, soft = {}, ["config.rs could not be read: %r" % (e,)], []
     snap = load_snapshot()
     fails += [h % snap.get("counter_bits", "?") if "%s" in h else h for h in hard]
     fails += ["unreadable: " + m for m in soft]
     f = {}
-    for k in list(NUM_CONSTS) + ["counter_bits", "sticky", "alpn", "ciphers", "weight", "tls_versions"]:
+    for k in list(NUM_CONSTS) + ["counter_bits", "sticky", "alpn", "ciphers", "weight", "tls_versions", "sid_specials", "sid_reserved"]:
         v = facts.get(k)
         if v is None:
             v = snap.get(k)
             if v is None:
                 fails.append("props/c20_facts.json has no value for %s and the source could not be read" % k)
-                v = {"sticky": "", "alpn": [], "ciphers": [], "tls_versions": []}.get(k, 0)
+                v = {"sticky": "", "alpn": [], "ciphers": [], "tls_versions": [], "sid_specials": "", "sid_reserved": []}.get(k, 0)
         f[k] = v
 
     def bl(s):
@@ -400,6 +430,8 @@ def translate():
     lines.append("Definition default_ext_http : list tok := [TN 0; TN 0; TN 0; TN 0; TN 0; TN (-1)].")
     lines.append("Definition default_ext_https : list tok := [TN 0; TN 0; TN 0; TN %d; %s; TN %d; %s; TN %d]."
                  % (len(vs), "; ".join("TN %d" % v for v in vs), len(ciphers), "; ".join("TB " + bl(c) for c in ciphers), f["default_tickets"]))
+    lines.append("Definition sid_tchar_specials : list N := %s." % bl(f["sid_specials"]))
+    lines.append("Definition sid_reserved : list (list N) := [%s]." % "; ".join(bl(x) for x in f["sid_reserved"]))
     vlib.write_if_changed(os.path.join(vlib.COQ, "C20", "Gen.v"), "\n".join(lines) + "\n")
     return fails
 
@@ -416,7 +448,8 @@ def snapshot():
     """`python3 props/c20.py --snapshot`: record the facts read from the current source (never done at check time)"""
     import json
     facts, hard, soft = read_facts(open(os.path.join(vlib.REPO, "command/src/config.rs")).read(),
-                                   open(os.path.join(vlib.REPO, "command/src/command.proto")).read())
+                                   open(os.path.join(vlib.REPO, "command/src/command.proto")).read(),
+                                   open(os.path.join(vlib.REPO, "command/src/state.rs")).read())
     if hard or soft:
         raise SystemExit("not snapshotting: %s" % (hard + soft))
     json.dump(facts, open(FACTS_PATH, "w"), indent=1, sort_keys=True)
@@ -640,8 +673,10 @@ def toml_of(d):
         if l.max_rx is not None: out.append("max_rx_datagram_size = %d" % l.max_rx)
         if l.max_flows is not None: out.append("max_flows = %d" % l.max_flows)
         if l.cert is not None:
-            out.append("certificate = %s" % q(os.path.join(ASSETS, POOL[l.cert])))
-            out.append("key = %s" % q(os.path.join(ASSETS, KEY)))
+            # -5 a file that cannot be read, -6 a file that holds no certificate, <= -100 certificate (-100 - index) without key
+            out.append("certificate = %s" % q(cert_path(l.cert if l.cert > -100 else -100 - l.cert)))
+            if l.cert > -100:
+                out.append("key = %s" % q(os.path.join(ASSETS, KEY)))
         if l.alpn is not None: out.append("alpn_protocols = [%s]" % ", ".join(q(a) for a in l.alpn))
         for nm, v in zip(PAY_L, l.pay):
             if v is None: continue
@@ -690,8 +725,9 @@ def toml_of(d):
             if f.kind is not None: parts.append("path_type = %s" % q(PK[f.kind]))
             if f.method is not None: parts.append("method = %s" % q(f.method))
             if f.cert is not None:
-                parts.append("certificate = %s" % q(os.path.join(ASSETS, POOL[f.cert]) if f.cert >= 0 else "/nonexistent/c20/cert.pem"))
+                parts.append("certificate = %s" % q(cert_path(f.cert)))
             if f.key: parts.append("key = %s" % q(os.path.join(ASSETS, KEY)))
+            if getattr(f, "tlsv", None) is not None: parts.append("tls_versions = [%s]" % ", ".join(q(v) for v in f.tlsv))
             if f.position is not None: parts.append("position = %s" % q(POS[f.position]))
             if f.tags is not None:
                 parts.append("tags = { %s }" % ", ".join("%s = %s" % (k, q(v)) for k, v in sorted(f.tags.items())))
@@ -733,7 +769,9 @@ IPS = [("127.0.0.1", "127.0.0.1"), ("0.0.0.0", "0.0.0.0"), ("10.1.2.3", "10.1.2.
        ("[2001:db8::5]", "[2001:db8::5]"), ("[0:0:0:0:0:0:0:1]", "[::1]"), ("[2001:DB8:0:0::5]", "[2001:db8::5]"),
        ("192.168.0.9", "192.168.0.9")]
 HOSTS = ["a.example.com", "b.example.com", "*.w.example.com", "lolcatho.st", "api.internal", "x-1.test"]
-PATHS = [None, "/", "/api", "/api/v1", "/static", "/a.*", "/x"]
+# (';' in a path: the state keys a route by the string address;hostname;<kind>path[;method] — none of these collides with
+# another path + ";" + method of the lists below; the colliding spellings are the extra_stage family, see route_key_cases)
+PATHS = [None, "/", "/api", "/api/v1", "/static", "/a.*", "/x", "/api;v=1", "/m;x"]
 METHODS = [None, None, None, "GET", "POST"]
 
 
@@ -790,7 +828,7 @@ class Gen:
             l.sticky = self.opt(0.2, lambda: r.choice(["SID", "SOZUBALANCEID", "my-sticky"]))
             for i in range(6):
                 l.pay[i] = self.opt(0.15, lambda: r.choice([1, 50, 100, 1000, 65536, 1048576]))
-            l.pay[7] = self.opt(0.15, lambda: r.choice(["X-Edge-Id", "Sozu-Id"]))
+            l.pay[7] = self.opt(0.2, lambda: r.choice(["X-Edge-Id", "Sozu-Id", "x!#$%&'*+-.^_`|~9", "hostx", "Cookie2", "T", "x-forwarded", "0"]))
         if proto in (0, 1):
             l.elide = r.choice([None, None, True, False]); l.send = r.choice([None, None, True, False])
             if r.random() < 0.2:
@@ -868,6 +906,10 @@ class Gen:
             return None
         if tls:
             f.cert = r.randrange(len(POOL)); f.key = True
+            if r.random() < 0.2:
+                # per-frontend TLS versions of the certificate (printed in the TOML only: the model does not carry them; the
+                # driver's oracle compares every AddCertificate with what the state keeps)
+                f.tlsv = r.choice([["TLS_V12"], ["TLS_V13"], ["TLS_V12", "TLS_V13"]])
         f.position = r.choice([None, None, 0, 1, 2])
         if r.random() < 0.3:
             f.tags = dict(r.sample([("owner", "John"), ("id", "42"), ("env", "prod")], r.randint(0, 2)))
@@ -960,6 +1002,19 @@ class Gen:
         return d
 
 
+def cert_path(idx):
+    if idx >= 0:
+        return os.path.join(ASSETS, POOL[idx])
+    if idx == -6:
+        return os.path.join(vlib.REPO, "Cargo.toml")          # readable, not a certificate
+    return "/nonexistent/c20/cert.pem"
+
+
+SID_RESERVED = ["host", "content-length", "transfer-encoding", "connection", "proxy-connection", "keep-alive", "te", "trailer", "upgrade",
+                "http2-settings", "cookie", "set-cookie", "forwarded", "x-forwarded-for", "x-forwarded-proto", "x-forwarded-port",
+                "x-forwarded-host", "x-real-ip", "x-request-id", "user-agent", "traceparent", "tracestate", "strict-transport-security"]
+
+
 def small_decl(rng):
     g = Gen(rng)
     g.globals_()
@@ -1007,6 +1062,56 @@ def sized_decl(rng, ncl, nf=2, nb=1, nl=0, activate="any"):
             c.backs.append(b)
         g.d.clusters.append(c)
     return g, g.finish()
+
+
+def route_key_cases(rng):
+    """Files the property calls valid (two distinct routes) whose state keys collide: path "P;M" without method and
+    path "P" with method "M".  Oracle only (the model keys routes by the tuple, ASSUMPTIONS): run by extra_stage."""
+    cases = []
+    for i in range(4):
+        for _ in range(50):
+            g, d = small_decl(rng)
+            cs = [c for c in d.clusters if c.proto == 0 and c.fronts]
+            if cs:
+                break
+        else:
+            continue
+        c = rng.choice(cs); f = rng.choice(c.fronts)
+        m = rng.choice(["GET", "POST", "X"])
+        base = f.path if f.path is not None else "/k%d" % i
+        f.path, f.method = base, m
+        f2 = Front(f.toml_addr, f.addr)
+        f2.hostname, f2.kind, f2.cert, f2.key, f2.hsts, f2.hsts_age = f.hostname, f.kind, f.cert, f.key, f.hsts, f.hsts_age
+        f2.path, f2.method = base + ";" + m, None
+        if f.kind is None and f.path is None:
+            continue
+        tgt = rng.choice(cs)
+        tgt.fronts.append(f2)
+        cases.append(case_of("rk%d" % i, d, "accept", dict(kind="route-key")))
+    return cases
+
+
+def extra_stage(tier, rng, work):
+    res = dict(failures=[], viols=[], coverage={})
+    cases = route_key_cases(rng)
+    rk_dir = os.path.join(vlib.ROOT if hasattr(vlib, "ROOT") else os.path.dirname(os.path.dirname(os.path.abspath(__file__))), "corpus", "C20rk")
+    for fn in sorted(os.listdir(rk_dir)) if os.path.isdir(rk_dir) else []:
+        if fn.endswith(".case"):
+            cases += vlib.parse_cases(open(os.path.join(rk_dir, fn)).read())
+    outs, problems = vlib.run_harness(HARNESS_BINS[0] if isinstance(HARNESS_BINS, (list, tuple)) else "c20", cases, os.path.join(work, "routekey"), "release", timeout=600, shards=2)
+    res["failures"] += problems
+    hit = 0
+    for c in cases:
+        o = outs.get(c.id)
+        if o is None:
+            res["failures"].append("route-key case %s produced no output" % c.id)
+            continue
+        for (vc, vt) in o["viol"]:
+            res["viols"].append((c, vc, "route-key collision family (path 'P;M' without method next to path 'P' with method 'M'): " + vt)); hit += 1
+        if o["panic"] is not None:
+            res["viols"].append((c, "panic", o["panic"]))
+    res["coverage"] = dict(route_key_cases=len(cases), route_key_oracle_violations=hit)
+    return res
 
 
 OBS_OPS = [["load"], ["ids"], ["results"], ["listeners"], ["clusters"], ["fronts"], ["tfronts"], ["backends"], ["certs"], ["reload"]]
@@ -1124,6 +1229,22 @@ def violate(rng, which):
             cs = [c for c in d.clusters if c.proto == 0 and any(f.cert is not None for f in c.fronts)]
             if not cs: continue
             f = r.choice([f for f in r.choice(cs).fronts if f.cert is not None]); f.cert = -5
+        elif which == "invalid-sozu-id-header":
+            ls = [l for l in d.listeners if l.proto in (0, 1)]
+            if not ls: continue
+            name = r.choice(SID_RESERVED)
+            r.choice(ls).pay[7] = r.choice(["", "Host", "bad:name", "x y", "X-Request-Id", "caf\u00e9", "a(b)", "a,b", "a/b", "a=b", "a@b", "a[b]", "a{b}",
+                                            name, name.upper(), name.title()])
+        elif which == "non-pem-certificate":
+            cs = [c for c in d.clusters if c.proto == 0 and any(f.cert is not None and f.cert >= 0 for f in c.fronts)]
+            if not cs: continue
+            f = r.choice([f for f in r.choice(cs).fronts if f.cert is not None and f.cert >= 0]); f.cert = -6
+        elif which == "listener-certificate-unusable":
+            ls = [l for l in d.listeners if l.proto == 1]
+            if not ls: continue
+            l = r.choice(ls)
+            # no key / unreadable file / not a certificate; a frontend without certificate of its own may sit on it
+            l.cert = r.choice([-100 - r.randrange(len(POOL)), -5, -6])
         elif which == "certificate-without-key":
             cs = [c for c in d.clusters if c.proto == 0 and c.fronts]
             if not cs: continue
@@ -1192,6 +1313,7 @@ VIOLATIONS = ["unknown-listener-protocol", "unknown-cluster-protocol", "missing-
               "tcp-frontend-with-hostname", "tcp-cluster-mixing-expect-proxy", "hsts-on-http-frontend", "duplicate-cluster-id",
               "automatic-state-save-without-saved-state", "missing-certificate-file", "malformed",
               "certificate-without-key", "key-without-certificate", "invalid-health-check",
+              "invalid-sozu-id-header", "non-pem-certificate", "listener-certificate-unusable",
               "duplicate-route", "duplicate-tcp-frontend", "tcp-address-two-clusters", "duplicate-backend", "h2-not-first-small-buffer"]
 
 
